@@ -206,6 +206,12 @@ def check(prog, run):
             st = [c for c in calls if c["name"] == "os.stat"]
             if len(st) != 1 or st[0]["args"][0] is not dev.attrs["_file_name"]:
                 run.violation("replug-test-stats-device-path", "SCSIDevice._is_replugged", "does not stat self._file_name", file, isr.node.lineno, isr.qualname)
+            elif len(st[0]["args"]) > 1 or any(k != "follow_symlinks" or v is not True for k, v in st[0]["kwargs"].items()):
+                # os.stat(path, *, dir_fd=None, follow_symlinks=True): anything else looks at something other than the node
+                # the path leads to (a symbolic link's own inode never changes when the device behind it is replaced)
+                run.violation("replug-test-stats-device-path", "SCSIDevice._is_replugged os.stat arguments",
+                              "the device path is examined with os.stat(%s): that is not the node the path currently leads to"
+                              % ", ".join(["path"] + ["%s=%r" % kv for kv in st[0]["kwargs"].items()]), file, isr.node.lineno, isr.qualname)
     for p in ps:
         if not p.returned:
             continue
@@ -300,6 +306,19 @@ def check(prog, run):
         s.attrs["device"] = make_scsi_device(prog)
         return s
     release_paths(SCSI_MOD, "SCSI", "__exit__", mk_scsi, exc_args, ".close")
+
+    def mk_scsi_iscsi():
+        s = Instance(prog.cls(SCSI_MOD, "SCSI"))
+        s.attrs["device"] = make_iscsi_device(prog)
+        return s
+    # the same facade over the other transport (what close() returns there comes from the binding)
+    release_paths(SCSI_MOD, "SCSI", "__exit__", mk_scsi_iscsi, exc_args, ".disconnect")
+    # ... and with an exception in flight
+    exc_live = [prog.I.bclasses["RuntimeError"], Instance(prog.I.bclasses["RuntimeError"]), None]
+    release_paths(SCSI_MOD, "SCSI", "__exit__", mk_scsi_iscsi, exc_live, ".disconnect")
+    release_paths(SCSI_MOD, "SCSI", "__exit__", mk_scsi, exc_live, ".close")
+    release_paths(DEV_MOD, "SCSIDevice", "__exit__", lambda: make_scsi_device(prog), exc_live, ".close")
+    release_paths(ISCSI_MOD, "ISCSIDevice", "__exit__", lambda: make_iscsi_device(prog), exc_live, ".disconnect")
     # __enter__ returns the object itself
     for mod, cn, mk in ((DEV_MOD, "SCSIDevice", lambda: make_scsi_device(prog)), (ISCSI_MOD, "ISCSIDevice", lambda: make_iscsi_device(prog)),
                         (SCSI_MOD, "SCSI", mk_scsi)):
